@@ -6,3 +6,13 @@ Definition run_bitd2bmp (v : val) : val :=
   match v with
   | VL [VZ w; VZ h; VZ depth; VZ pw; VZ ph; VB pt; VB clut; VB f] => vresult VB (bitd2bmp w h depth pw ph pt clut f)
   | _ => vbad end.
+
+Definition get_args (v : val) : option bitd_args :=
+  match v with
+  | VL [VZ w; VZ h; VZ depth; VZ pw; VZ ph; VB pt; VB clut; VB f] => Some (Build_bitd_args w h depth pw ph pt clut f)
+  | _ => None end.
+Definition v_res (r : result bytes) : val := vresult VB r.
+Definition run_bitd_history (v : val) : val :=
+  match getLof get_args v with
+  | Some h => vlist v_res (bitd_history [] h)
+  | None => vbad end.
